@@ -110,6 +110,11 @@ where
                 return;
             }
         };
+        // "given a valid state": the stage input must itself be inside the declared ranges
+        if !(start.length >= 0.01 && start.ratio >= 0.1 && start.ratio <= 1. && start.x.abs() <= 0.5 && start.y.abs() <= 0.5) {
+            st.count("chains_stopped_stage_input_outside_the_declared_ranges(not an event)");
+            return;
+        }
         let s0 = cur.score();
         if s0.map(|x| x.is_finite()) != Some(true) {
             if k == 0 {
@@ -288,6 +293,10 @@ pub fn gen_chain<R: Rng>(rng: &mut R) -> Case {
         } else {
             libx::gen::trimer(rng)
         }
+    } else if rng.gen_range(0, 6) == 0 {
+        // shapes of any size: tiny ones put the cell length next to its lower bound of 0.01
+        let scale = 10f64.powf(rng.gen_range(-3.3, -1.3));
+        ShapeSpec::Radial { radii: vec![scale; rng.gen_range(3, 8)] }
     } else {
         libx::gen::hard_shape(rng)
     };
